@@ -66,7 +66,7 @@ class Cycles:
                 self.oper[d] = o
         # 3. acceptances
         while self.n_recv < len(log.receives):
-            t, did, part, ct_read, ser, lvs = log.receives[self.n_recv]
+            t, did, part, ct_read, ser, lvs, val = log.receives[self.n_recv]
             self.n_recv += 1
             if did in self.sinks:
                 last = self.sink_last.get(did)
